@@ -147,3 +147,46 @@ theorem notGaveUp_shape (cfg : RCfg) (evs : List Ev) (sends : List Bool) (backs 
             exact h
 
 end FileD.Retry
+
+namespace FileD.Retry
+open FileD.Batcher
+
+theorem sleepsOf_giveUp (cfg : RCfg) (evs : List Ev) : sleepsOf (giveUp cfg evs) = [] := by
+  unfold giveUp sleepsOf
+  split
+  · simp [List.filterMap_append, List.filterMap_map, Function.comp_def]
+  · simp
+
+/-- the pauses of one `Out` call are, in order, the answers of that call's own back-off:
+    the n-th sleep is the n-th `NextBackOff()` result (as long as the call goes on) -/
+theorem sleeps_prefix (cfg : RCfg) (evs : List Ev) (sends : List Bool) (backs : List BackOff) (tries : Nat) :
+    ∃ r, sleepsOf (out cfg evs sends backs tries).log = (backs.take r).map (fun b => match b with | .dur d => d | .stop => 0) ∧
+      ∀ b ∈ backs.take r, b ≠ .stop := by
+  induction sends generalizing backs tries with
+  | nil => exact ⟨0, by simp [out, sleepsOf], by simp⟩
+  | cons s ss ih =>
+    cases s with
+    | true => exact ⟨0, by simp [out, sleepsOf], by simp⟩
+    | false =>
+      cases backs with
+      | nil => exact ⟨0, by simp [out, sleepsOf], by simp⟩
+      | cons b bs =>
+        rw [out_fail_cons]
+        split
+        · refine ⟨0, ?_, by simp⟩
+          have := sleepsOf_giveUp cfg evs
+          simp only [sleepsOf, List.cons_append, List.nil_append, List.filterMap] at this ⊢
+          simpa using this
+        · rename_i hc
+          obtain ⟨r, h1, h2⟩ := ih bs (tries + 1)
+          have hb : b ≠ .stop := fun h => hc (Or.inl h)
+          refine ⟨r + 1, ?_, ?_⟩
+          · simp only [sleepsOf, List.cons_append, List.nil_append, List.filterMap, List.take_succ_cons, List.map_cons] at h1 ⊢
+            rw [h1]
+          · intro x hx
+            simp only [List.take_succ_cons, List.mem_cons] at hx
+            rcases hx with rfl | hx
+            · exact hb
+            · exact h2 x hx
+
+end FileD.Retry
